@@ -126,7 +126,9 @@ theorem variableIdentifier_spec (h : PostV c0 c) (hn : Fits (k + 2) c0 n) :
     split
     · rename_i sv hsv
       split
-      · exact utilsIdentifier_spec h.toPost ((hn.sub (Ast.head?_children_sub hinner)).sub (Ast.child_sub hsv))
+      · rename_i hk
+        exact utilsIdentifier_spec h.toPost ((hn.sub (Ast.head?_children_sub hinner)).sub (Ast.child_sub hsv))
+          (by simpa using hk)
       · exact Holds.pure ⟨rfl, by intro _ _ hl; cases hl⟩
     · exact Holds.pure ⟨rfl, by intro _ _ hl; cases hl⟩
   · exact Holds.pure ⟨rfl, by intro _ _ hl; cases hl⟩
